@@ -410,6 +410,7 @@ class _Canon(ast.NodeTransformer):
             self._stored_copies(n)
             self._entry_aliases(n, counts)
             self._item_copies(n, counts)
+            self._working_copies(n)
             return n
         finally:
             stack.pop()
@@ -590,6 +591,54 @@ class _Canon(ast.NodeTransformer):
             return 0
         return sum(1 for x in occ if isinstance(x.ctx, ast.Load) and st.lineno < x.lineno < nxt) \
             + sum(1 for x in occ if isinstance(x.ctx, ast.Load) and x.lineno == st.lineno and not any(x is y for y in ast.walk(st)))
+
+    def _working_copies(self, fn: ast.FunctionDef) -> None:
+        """`t = o.a; <statements that only compute with t>; o.a = t` is that computation on `o.a` itself: between the two copies
+        nothing is called and no attribute `a` is touched, and `t` lives only there."""
+        def scan(block: list[ast.stmt]):
+            for st in block:
+                for fld in ("body", "orelse", "finalbody"):
+                    b = getattr(st, fld, None)
+                    if isinstance(b, list) and b and isinstance(b[0], ast.stmt):
+                        scan(b)
+                if isinstance(st, ast.Try):
+                    for h in st.handlers:
+                        scan(h.body)
+            i = 0
+            while i < len(block):
+                st = block[i]
+                if isinstance(st, ast.Assign) and len(st.targets) == 1 and isinstance(st.targets[0], ast.Name) and isinstance(st.value, ast.Attribute) \
+                        and isinstance(st.value.value, ast.Name) and st.value.value.id != st.targets[0].id:
+                    t, o, a = st.targets[0].id, st.value.value.id, st.value.attr
+                    j = next((k for k in range(i + 1, len(block)) if isinstance(block[k], ast.Assign) and len(block[k].targets) == 1
+                              and isinstance(block[k].targets[0], ast.Attribute) and block[k].targets[0].attr == a and isinstance(block[k].targets[0].value, ast.Name)
+                              and block[k].targets[0].value.id == o and isinstance(block[k].value, ast.Name) and block[k].value.id == t), None)
+                    if j is not None and j > i + 1:
+                        mid = block[i + 1:j]
+                        inner = [x for m_ in mid for x in ast.walk(m_)]
+                        calm = not any(isinstance(x, (ast.Call, ast.Yield, ast.YieldFrom, ast.Await, ast.Return, ast.Break, ast.Continue, ast.Raise, ast.Try, ast.With,
+                                                       ast.FunctionDef, ast.Lambda)) for x in inner) \
+                            and not any(isinstance(x, ast.Attribute) and x.attr == a for x in inner) \
+                            and not any(isinstance(x, ast.Name) and x.id == o and isinstance(x.ctx, (ast.Store, ast.Del)) for x in inner)
+                        inside = {id(x) for x in inner if isinstance(x, ast.Name) and x.id == t}
+                        everywhere = [x for x in ast.walk(fn) if isinstance(x, ast.Name) and x.id == t]
+                        only_there = len(everywhere) == len(inside) + 2
+                        if calm and only_there and inside:
+                            class R(ast.NodeTransformer):
+                                def visit_Name(self_, n_):
+                                    if n_.id == t:
+                                        return ast.copy_location(ast.Attribute(value=ast.copy_location(ast.Name(id=o, ctx=ast.Load()), n_), attr=a, ctx=n_.ctx), n_)
+                                    return n_
+                            new_mid = [R().visit(m_) for m_ in mid]
+                            block[i:j + 1] = new_mid
+                            for m_ in new_mid:
+                                for x in ast.walk(m_):
+                                    for c in ast.iter_child_nodes(x):
+                                        c._parent = x
+                                m_._parent = getattr(st, "_parent", None)
+                            continue
+                i += 1
+        scan(fn.body)
 
     def _item_copies(self, fn: ast.FunctionDef, counts: dict) -> None:
         """`first = pair[0]` used in the statements that follow, while `pair` is only appended to, is `pair[0]`."""
